@@ -1398,7 +1398,13 @@ fn distribute_space_up_to_limits(
 
         for track in tracks.iter_mut().filter(|track| track_is_affected(track)) {
             let increase = iteration_item_incurred_increase * track_distribution_proportion(track);
-            if increase > 0.0 && track_affected_property(track) + increase <= track_limit(track) + THRESHOLD {
+            // Only tracks that are still growable (the ones counted in `track_distribution_proportion_sum`) may receive
+            // space: the THRESHOLD slack must not leak into tracks that already sit at their limit (fixed tracks, gutters)
+            let is_growable = track_affected_property(track) + track.item_incurred_increase < track_limit(track);
+            if increase > 0.0
+                && is_growable
+                && track_affected_property(track) + increase <= track_limit(track) + THRESHOLD
+            {
                 track.item_incurred_increase += increase;
                 space_to_distribute -= increase;
             }
